@@ -49,16 +49,16 @@ def log(*a):
 
 
 # ------------------------------------------------------------------ build
-def build_coq(clean=False):
-    """(ok, message).  Serialised with a lock so concurrent checks do not race."""
+def build_coq(clean=False, targets=None):
+    """(ok, message).  Serialised with a lock so concurrent checks do not race.  Only the
+    targets the property needs (and their dependencies) are built, with make -k."""
     os.makedirs(os.path.join(VERIF, ".work"), exist_ok=True)
     with open(os.path.join(VERIF, ".work", "build.lock"), "w") as lk:
         fcntl.flock(lk, fcntl.LOCK_EX)
         subprocess.run([os.path.join(VERIF, "bin", "mkproject")], check=False)
-        if clean:
-            subprocess.run(["make", "-C", coqio.COQ_DIR, "clean"], capture_output=True)
+        tg = ["theories/%s.vo" % t for t in (targets or [])]
         p = subprocess.run(
-            ["timeout", "3000", "make", "-C", coqio.COQ_DIR, "-j16", "-k"],
+            ["timeout", "3000", "make", "-C", coqio.COQ_DIR, "-j16", "-k"] + tg,
             capture_output=True, text=True)
         return p.returncode == 0, (p.stdout + p.stderr)[-3000:]
 
@@ -198,8 +198,9 @@ def pipeline(mod, pid, tier, seed, args, work, t0):
     notes = []
 
     # ---- 1. proof obligations
-    ok_build, build_log = build_coq(clean=False)  # never clean: concurrent checks share the .vo files; bin/setup builds from scratch on a fresh restore
     prop_mod = getattr(mod, "PROP_MODULE", "Prop_" + pid)
+    # never clean: concurrent checks share the .vo files; bin/setup builds from scratch on a fresh restore
+    ok_build, build_log = build_coq(targets=[prop_mod] + list(getattr(mod, "COQ_REQUIRE", [])))
     theorems = list(mod.OBLIGATIONS)
     fresh, why = vo_fresh(prop_mod, getattr(mod, "COQ_REQUIRE", []))
     assum = {}
